@@ -381,9 +381,11 @@ def singularityCheck(
     if inclined and eccentric:
         return wrapAngleHalfOpen(raan), wrapAngleHalfOpen(argp), wrapAngleHalfOpen(anomaly)
 
+    # Equatorial retrograde orbits: the node is subtracted (longitude of periapsis = argp - raan)
+    retro_sign = -1.0 if inc > 0.5 * PI else 1.0
     if not inclined and eccentric:
         # RAAN, Ω, is undefined
-        true_long_rp = wrapAngleHalfOpen(raan + argp)
+        true_long_rp = wrapAngleHalfOpen(argp + retro_sign * raan)
         return 0.0, true_long_rp, wrapAngleHalfOpen(anomaly)
 
     if inclined and not eccentric:
@@ -393,7 +395,7 @@ def singularityCheck(
 
     # else; Circular and Equatorial
     # RAAN, Ω, and Arg. Perigee, ω, are undefined
-    true_long = wrapAngleHalfOpen(anomaly + raan + argp)
+    true_long = wrapAngleHalfOpen(anomaly + argp + retro_sign * raan)
     return 0.0, 0.0, true_long
 
 
